@@ -152,6 +152,55 @@ def run(ctx) -> None:
   r5_split(ctx, mi)
   r6_mapper(ctx)
   r7_exact_index(ctx, mi)
+  r7_getter_representation(ctx, mi)
+
+
+# ----------------------------------------------------------------------- R7 (getter)
+def r7_getter_representation(ctx, mi) -> None:
+  """The value looked up in feasible_values must be in the parameter's *internal* representation (as_float / as_int /
+  as_str, the one feasible_values themselves are stored in): member-wise table of the default getter."""
+  from vzstatic import enumeval
+  fi = mi.functions.get('_create_default_getter')
+  if fi is None:
+    raise AnalysisError('_create_default_getter not found')
+  inner = next((x for x in ast.walk(fi.node) if isinstance(x, ast.FunctionDef) and x is not fi.node), None)
+  if inner is None:
+    raise AnalysisError('_create_default_getter: nested getter not found')
+  subj = next((unparse(t.left, 0) for t in ast.walk(inner) if isinstance(t, ast.Compare) and unparse(t.left, 0).endswith('.type')), None)
+  if subj is None:
+    raise AnalysisError('_create_default_getter: no dispatch on <config>.type')
+  want = {'DOUBLE': 'as_float', 'DISCRETE': 'as_float', 'INTEGER': 'as_int', 'CATEGORICAL': 'as_str'}
+  probs = []
+  for member, acc in want.items():
+    def tev(t, member=member):
+      v = enumeval.eval_test(t, {subj: member})
+      if v is None and isinstance(t, ast.Compare) and isinstance(t.ops[0], (ast.In, ast.NotIn)):
+        return False if isinstance(t.ops[0], ast.NotIn) else True  # `name not in trial.parameters`: the parameter is present
+      return v
+    body = [s_ for s_ in inner.body]
+    # follow the function with the presence test decided as "present"
+    r = None
+    def run(stmts):
+      for st in stmts:
+        if isinstance(st, ast.Return):
+          return st.value
+        if isinstance(st, ast.If):
+          v = tev(st.test)
+          if v is None:
+            return enumeval.UNKNOWN
+          x = run(st.body if v else st.orelse)
+          if x is not None:
+            return x
+      return None
+    r = run(body)
+    got = r.attr if isinstance(r, ast.Attribute) else (unparse(r, 0) if isinstance(r, ast.AST) else '?')
+    if got != acc:
+      probs.append(f'{member}: `{got}`, expected `.{acc}`')
+  ctx.check(not probs, 'R7', 'default getter returns the internal representation', inner,
+            'DOUBLE/DISCRETE as_float, INTEGER as_int, CATEGORICAL as_str',
+            '; '.join(probs) + ': the value is compared with feasible_values in another representation (a Python bool is not the string '
+            "'True'), so a feasible value is encoded as out-of-vocabulary and decodes to a different value", construct='getter-representation',
+            func=fi.qualname)
 
 
 # ----------------------------------------------------------------------- R7
